@@ -189,3 +189,33 @@ Proof.
     | unfold enum_of | unfold object_of | unfold interface_of | unfold input_of ];
     first [rewrite Fn | rewrite Fo]; reflexivity.
 Qed.
+
+(* also the order of the directive definitions *)
+Lemma diff_directives_perm od nd od' nd' :
+  names_unique d_name od -> names_unique d_name nd ->
+  Permutation od od' -> Permutation nd nd' ->
+  Permutation (diff_directives od nd) (diff_directives od' nd').
+Proof.
+  intros Ho Hn Po Pn. unfold diff_directives.
+  assert (Fo : forall k, find_dir od k = find_dir od' k) by (intros k; apply find_perm; assumption).
+  assert (Fn : forall k, find_dir nd k = find_dir nd' k) by (intros k; apply find_perm; assumption).
+  apply Permutation_app; apply perm_flat_map_ext; try assumption; intros d;
+    destruct (d_specified d); try reflexivity; [rewrite Fn|rewrite Fo]; reflexivity.
+Qed.
+
+Theorem diff_model_order_full o n o' n' :
+  names_unique t_name (s_types o) -> names_unique t_name (s_types n) ->
+  names_unique d_name (s_dirs o) -> names_unique d_name (s_dirs n) ->
+  Permutation (s_types o) (s_types o') -> Permutation (s_types n) (s_types n') ->
+  Permutation (s_dirs o) (s_dirs o') -> Permutation (s_dirs n) (s_dirs n') ->
+  Permutation (diff_model o n) (diff_model o' n').
+Proof.
+  intros Ho Hn Hdo Hdn Po Pn Do Dn.
+  pose (o1 := mkSchema (s_types o') (s_dirs o) (s_query o) (s_mutation o) (s_subscription o) (s_default_resolver o)).
+  pose (n1 := mkSchema (s_types n') (s_dirs n) (s_query n) (s_mutation n) (s_subscription n) (s_default_resolver n)).
+  apply (Permutation_trans (l' := diff_model o1 n1)).
+  - apply diff_model_order; try assumption; reflexivity.
+  - unfold diff_model. simpl.
+    apply Permutation_app_head. apply Permutation_app_head. apply Permutation_app_tail.
+    apply diff_directives_perm; assumption.
+Qed.
